@@ -286,4 +286,530 @@ theorem lexL_shift : ∀ (b : List Char) (p q : Nat) (d : Int), (q : Int) = p + 
     have h2 := ih (p + utf8Len ((c :: cs).take o.n)) (q + utf8Len ((c :: cs).take o.n)) d (by omega)
     simp [List.mapM_cons, shiftToken_mkToken o (c :: cs) h, h2]
 
+/-! ### look-ahead locality and the stability of the unaffected head -/
+
+/-- **Look-ahead locality of `Token::lex`**: the token recognised at the start of a text depends
+    only on the token's own characters and — for kinds with look-ahead 1 — the one character
+    after it (or the fact that the text ends there). -/
+def LexLocal : Prop := ∀ (pre rest rest' : List Char) (o : LexOut),
+  lexOne (pre ++ rest) = some o → o.n = pre.length →
+  (Gen.lookAhead o.ty.kind = 0 ∨ rest.head? = rest'.head?) →
+  lexOne (pre ++ rest') = some o
+
+theorem lookAhead_le_one (k : Kind) : Gen.lookAhead k ≤ 1 := by cases k <;> decide
+
+theorem mkToken_kind (o : LexOut) (s : List Char) (off : Nat) : (mkToken o s off).kind = o.ty.kind := rfl
+
+theorem isAffectedBy_true {t : Token} {cs : Nat} :
+    t.isAffectedBy cs = true ↔ cs < t.range.hi + Gen.lookAhead t.kind := by
+  simp [Token.isAffectedBy]
+
+theorem isAffectedBy_false {t : Token} {cs : Nat} :
+    t.isAffectedBy cs = false ↔ t.range.hi + Gen.lookAhead t.kind ≤ cs := by
+  simp [Token.isAffectedBy]
+
+/-- all tokens of a lexing that starts at or after an affected token's end are affected -/
+theorem affected_after {s : List Char} {p cs : Nat} (h : cs < p + 1) :
+    ∀ t ∈ lexL s p, t.isAffectedBy cs = true := by
+  intro t ht
+  have h1 := lexL_lo s p t ht
+  have h2 := (lexL_bounds s p t ht).1
+  rw [isAffectedBy_true]
+  omega
+
+theorem head_stable (hloc : LexLocal) : ∀ (s : List Char) (off : Nat) (a b b' : List Char), s = a ++ b →
+    ∃ (H : List Token) (a1 g : List Char), a = a1 ++ g ∧
+      lexL (a ++ b) off = H ++ lexL (g ++ b) (off + utf8Len a1) ∧
+      lexL (a ++ b') off = H ++ lexL (g ++ b') (off + utf8Len a1) ∧
+      (∀ t ∈ H, t.isAffectedBy (off + utf8Len a) = false) ∧
+      (∀ t ∈ lexL (g ++ b) (off + utf8Len a1), t.isAffectedBy (off + utf8Len a) = true) ∧
+      (H = [] → a1 = []) ∧ (∀ t, H.getLast? = some t → t.range.hi = off + utf8Len a1) := by
+  intro s
+  induction s using lexL_induct with
+  | hnil =>
+    intro off a b b' h
+    obtain ⟨ha, hb⟩ := List.append_eq_nil_iff.mp h.symm
+    subst ha hb
+    exact ⟨[], [], [], rfl, by simp, by simp, by simp, by simp, by simp, by simp⟩
+  | hsp c cs hc ih =>
+    intro off a b b' h
+    cases a with
+    | nil =>
+      refine ⟨[], [], [], rfl, by simp, by simp, by simp, ?_, by simp, by simp⟩
+      simp only [List.nil_append, utf8Len_nil, Nat.add_zero]
+      exact affected_after (by omega)
+    | cons c' a' =>
+      simp only [List.cons_append, List.cons.injEq] at h
+      obtain ⟨hcc, hcs⟩ := h
+      subst hcc
+      obtain ⟨H, a1', g, h1, h2, h3, h4, h5, h6, h7⟩ := ih (off + c.utf8Size) a' b b' hcs
+      have e1 : lexL (c :: a' ++ b) off = lexL (a' ++ b) (off + c.utf8Size) := by
+        rw [List.cons_append, lexL_space hc]
+      have e2 : lexL (c :: a' ++ b') off = lexL (a' ++ b') (off + c.utf8Size) := by
+        rw [List.cons_append, lexL_space hc]
+      have eoff : off + c.utf8Size + utf8Len a' = off + utf8Len (c :: a') := by
+        simp only [utf8Len_cons]; omega
+      cases H with
+      | nil =>
+        refine ⟨[], [], c :: a', rfl, by simp, by simp, by simp, ?_, by simp, by simp⟩
+        simp only [utf8Len_nil, Nat.add_zero]
+        intro t ht
+        rw [e1, h2] at ht
+        rw [← eoff]
+        exact h5 t (by simpa using ht)
+      | cons x xs =>
+        refine ⟨x :: xs, c :: a1', g, by simp [h1], ?_, ?_, ?_, ?_, by simp, ?_⟩
+        · rw [e1, h2]; simp only [utf8Len_cons]; rw [Nat.add_assoc]
+        · rw [e2, h3]; simp only [utf8Len_cons]; rw [Nat.add_assoc]
+        · rw [← eoff]; exact h4
+        · rw [← eoff]; simp only [utf8Len_cons]; rw [← Nat.add_assoc]; exact h5
+        · intro t ht; rw [h7 t ht]; simp only [utf8Len_cons]; omega
+  | htok c cs o hc ho ih =>
+    intro off a b b' h
+    have hok := lexOne_ok ho
+    have hl := lexL_token (off := off) hc ho
+    have hsplit : (c :: cs) = (c :: cs).take o.n ++ (c :: cs).drop o.n := (List.take_append_drop _ _).symm
+    by_cases haff : (mkToken o (c :: cs) off).isAffectedBy (off + utf8Len a) = true
+    · -- the first token is affected: nothing is kept
+      refine ⟨[], [], a, rfl, by simp, by simp, by simp, ?_, by simp, by simp⟩
+      simp only [utf8Len_nil, Nat.add_zero, List.nil_append]
+      intro t ht
+      rw [← h, hl] at ht
+      simp only [List.mem_cons] at ht
+      rcases ht with rfl | ht
+      · exact haff
+      · have hla := lookAhead_le_one (mkToken o (c :: cs) off).kind
+        rw [isAffectedBy_true, mkToken_hi] at haff
+        exact affected_after (by omega) t ht
+    · -- the first token is unaffected: it lies inside `a`, with its look-ahead
+      have haff' : (mkToken o (c :: cs) off).isAffectedBy (off + utf8Len a) = false := by simpa using haff
+      rw [isAffectedBy_false, mkToken_hi, mkToken_kind] at haff'
+      have hle : utf8Len ((c :: cs).take o.n) ≤ utf8Len a := by omega
+      obtain ⟨m, hm1, hm2⟩ := split_prefix (hsplit.symm.trans h) hle
+      have hlen : ((c :: cs).take o.n).length = o.n := by
+        rw [List.length_take]; exact Nat.min_eq_left hok.le
+      have hone : lexOne ((c :: cs).take o.n ++ (m ++ b)) = some o := by
+        rw [← hm2, ← hsplit]; exact ho
+      have hone' : lexOne ((c :: cs).take o.n ++ (m ++ b')) = some o := by
+        refine hloc _ (m ++ b) (m ++ b') o hone hlen.symm ?_
+        by_cases hz : Gen.lookAhead o.ty.kind = 0
+        · exact Or.inl hz
+        · right
+          have hm : m ≠ [] := by
+            intro hm; subst hm
+            rw [hm1, List.append_nil] at haff'
+            omega
+          cases m with
+          | nil => exact absurd rfl hm
+          | cons x m' => simp
+      -- the first character of the taken prefix is `c`
+      obtain ⟨n', hn'⟩ : ∃ n', o.n = n' + 1 := ⟨o.n - 1, by have := hok.pos; omega⟩
+      have htake : (c :: cs).take o.n = c :: cs.take n' := by rw [hn']; rfl
+      have hn'le : n' ≤ cs.length := by
+        have := hok.le; simp only [List.length_cons] at this; omega
+      have hl' : lexL (a ++ b') off =
+          mkToken o (c :: cs) off :: lexL (m ++ b') (off + utf8Len ((c :: cs).take o.n)) := by
+        have e : a ++ b' = c :: (cs.take n' ++ (m ++ b')) := by
+          rw [hm1, htake]; simp
+        rw [e]
+        have ho2 : lexOne (c :: (cs.take n' ++ (m ++ b'))) = some o := by
+          have := hone'; rw [htake] at this; simpa using this
+        rw [lexL_token hc ho2]
+        have t1 : (c :: (cs.take n' ++ (m ++ b'))).take o.n = (c :: cs).take o.n := by
+          rw [htake, hn']
+          simp only [List.take_succ_cons, List.cons.injEq, true_and]
+          rw [List.take_append_of_le_length (by rw [List.length_take]; omega)]
+          rw [List.take_take]; simp
+        have t2 : (c :: (cs.take n' ++ (m ++ b'))).drop o.n = m ++ b' := by
+          rw [hn']
+          simp only [List.drop_succ_cons]
+          have hlt : (cs.take n').length = n' := by
+            rw [List.length_take]
+            have := hok.le; simp only [List.length_cons] at this; omega
+          rw [List.drop_append_of_le_length (by omega)]
+          rw [List.drop_of_length_le (by omega)]; simp
+        simp only [mkToken, t1, t2]
+      obtain ⟨H, a1', g, h1, h2, h3, h4, h5, h6, h7⟩ :=
+        ih (off + utf8Len ((c :: cs).take o.n)) m b b' hm2
+      have eoff : off + utf8Len ((c :: cs).take o.n) + utf8Len m = off + utf8Len a := by
+        rw [hm1, utf8Len_append]; omega
+      refine ⟨mkToken o (c :: cs) off :: H, (c :: cs).take o.n ++ a1', g, ?_, ?_, ?_, ?_, ?_, by simp, ?_⟩
+      · rw [hm1, h1]; simp
+      · rw [← h, hl, hm2, h2, utf8Len_append, Nat.add_assoc]; simp
+      · rw [hl', h3, utf8Len_append, Nat.add_assoc]; simp
+      · intro t ht
+        simp only [List.mem_cons] at ht
+        rcases ht with rfl | ht
+        · rw [isAffectedBy_false, mkToken_hi, mkToken_kind]
+          exact haff'
+        · rw [← eoff]; exact h4 t ht
+      · rw [utf8Len_append, ← Nat.add_assoc, ← eoff]; exact h5
+      · intro t ht
+        cases H with
+        | nil =>
+          simp only [List.getLast?_singleton, Option.some.injEq] at ht
+          subst ht
+          rw [h6 rfl]; simp [mkToken_hi]
+        | cons x xs =>
+          rw [List.getLast?_cons_cons] at ht
+          rw [h7 t ht, utf8Len_append]; omega
+
+/-! ### list facts used by the update algorithm -/
+
+theorem takeWhile_cases {α} (q : α → Bool) : ∀ (l : List α),
+    (l.takeWhile q = l ∧ ∀ x ∈ l, q x = true) ∨
+    (∃ l1 x l2, l = l1 ++ x :: l2 ∧ (∀ y ∈ l1, q y = true) ∧ q x = false ∧ l.takeWhile q = l1)
+  | [] => Or.inl ⟨rfl, by simp⟩
+  | a :: as => by
+    cases hq : q a with
+    | false => exact Or.inr ⟨[], a, as, rfl, by simp, hq, by simp [List.takeWhile, hq]⟩
+    | true =>
+      rcases takeWhile_cases q as with ⟨h1, h2⟩ | ⟨l1, x, l2, h1, h2, h3, h4⟩
+      · left
+        exact ⟨by simp [List.takeWhile, hq, h1], by intro y hy; simp at hy; rcases hy with rfl | hy; exact hq; exact h2 y hy⟩
+      · right
+        refine ⟨a :: l1, x, l2, by simp [h1], ?_, h3, by simp [List.takeWhile, hq, h4]⟩
+        intro y hy; simp at hy; rcases hy with rfl | hy
+        · exact hq
+        · exact h2 y hy
+
+theorem dropWhile_append_of {α} (p : α → Bool) (l1 : List α) (x : α) (l2 : List α)
+    (h1 : ∀ y ∈ l1, p y = true) (hx : p x = false) :
+    (l1 ++ x :: l2).dropWhile p = x :: l2 := by
+  induction l1 with
+  | nil => simp [List.dropWhile, hx]
+  | cons a as ih =>
+    have ha := h1 a (by simp)
+    simp only [List.cons_append, List.dropWhile, ha]
+    exact ih (fun y hy => h1 y (by simp [hy]))
+
+theorem dropWhile_all {α} (p : α → Bool) (l : List α) (h : ∀ y ∈ l, p y = true) :
+    l.dropWhile p = [] := by
+  induction l with
+  | nil => rfl
+  | cons a as ih =>
+    have ha := h a (by simp)
+    simp only [List.dropWhile, ha]
+    exact ih (fun y hy => h y (by simp [hy]))
+
+theorem filter_append_of {α} (p : α → Bool) (l1 l2 : List α)
+    (h1 : ∀ y ∈ l1, p y = true) (h2 : ∀ y ∈ l2, p y = false) : (l1 ++ l2).filter p = l1 := by
+  rw [List.filter_append]
+  have e1 : l1.filter p = l1 := List.filter_eq_self.mpr h1
+  have e2 : l2.filter p = [] := List.filter_eq_nil_iff.mpr (fun y hy => by simp [h2 y hy])
+  rw [e1, e2, List.append_nil]
+
+theorem filter_append_of' {α} (p : α → Bool) (l1 l2 : List α)
+    (h1 : ∀ y ∈ l1, p y = false) (h2 : ∀ y ∈ l2, p y = true) : (l1 ++ l2).filter p = l2 := by
+  rw [List.filter_append]
+  have e1 : l2.filter p = l2 := List.filter_eq_self.mpr h2
+  have e2 : l1.filter p = [] := List.filter_eq_nil_iff.mpr (fun y hy => by simp [h1 y hy])
+  rw [e1, e2, List.nil_append]
+
+/-- a list sorted by a strict order splits at a monotone predicate -/
+theorem sorted_split {α} (R : α → α → Prop) (p : α → Bool)
+    (hmono : ∀ a b, R a b → p a = false → p b = false) :
+    ∀ (l : List α), l.Pairwise R →
+      ∃ l1 l2, l = l1 ++ l2 ∧ (∀ y ∈ l1, p y = true) ∧ (∀ y ∈ l2, p y = false)
+  | [], _ => ⟨[], [], rfl, by simp, by simp⟩
+  | a :: as, h => by
+    rw [List.pairwise_cons] at h
+    cases hp : p a with
+    | false =>
+      refine ⟨[], a :: as, rfl, by simp, ?_⟩
+      intro y hy; simp at hy; rcases hy with rfl | hy
+      · exact hp
+      · exact hmono a y (h.1 y hy) hp
+    | true =>
+      obtain ⟨l1, l2, e, h1, h2⟩ := sorted_split R p hmono as h.2
+      refine ⟨a :: l1, l2, by simp [e], ?_, h2⟩
+      intro y hy; simp at hy; rcases hy with rfl | hy
+      · exact hp
+      · exact h1 y hy
+
+theorem lexL_lo_sorted (s : List Char) (off : Nat) :
+    (lexL s off).Pairwise (fun a b => a.range.lo < b.range.lo) := by
+  have h1 := lexL_sorted s off
+  have h2 := lexL_bounds s off
+  refine List.Pairwise.imp_of_mem ?_ h1
+  intro a b ha _ hab
+  have := (h2 a ha).1
+  omega
+
+/-! ### stitching the re-lexed middle to the reusable tail -/
+
+def newToksOf (L R : List Token) : List Token := L.takeWhile (fun t => !R.contains t)
+
+def tailOf (L R : List Token) : List Token :=
+  match (newToksOf L R).getLast? with
+  | some l => R.dropWhile (fun t => t.range.lo < l.range.hi)
+  | none => R
+
+/-- `R` is the lexing of a suffix `b` of `w` at its true position: the tokens of `L` up to the
+    first one that also occurs in `R`, followed by `R` from there on, are exactly `L`. -/
+theorem stitch (w1 b : List Char) (r : Nat) :
+    newToksOf (lexL (w1 ++ b) r) (lexL b (r + utf8Len w1)) ++
+      tailOf (lexL (w1 ++ b) r) (lexL b (r + utf8Len w1)) = lexL (w1 ++ b) r := by
+  generalize hL : lexL (w1 ++ b) r = L
+  generalize hR : lexL b (r + utf8Len w1) = R
+  have hRsorted : R.Pairwise (fun a b => a.range.lo < b.range.lo) := by rw [← hR]; exact lexL_lo_sorted _ _
+  have hLsorted : L.Pairwise (fun a b => a.range.hi ≤ b.range.lo) := by rw [← hL]; exact lexL_sorted _ _
+  rcases takeWhile_cases (fun t => !R.contains t) L with ⟨h1, h2⟩ | ⟨L1, x, L2, e, h1, hx, h4⟩
+  · -- no token of L occurs in R
+    have hnew : newToksOf L R = L := h1
+    suffices htail : tailOf L R = [] by rw [hnew, htail, List.append_nil]
+    unfold tailOf
+    rw [hnew]
+    cases hlast : L.getLast? with
+    | none =>
+      have : L = [] := List.getLast?_eq_none_iff.mp hlast
+      subst this
+      have := pre_empty w1 b r hL
+      rw [hR] at this
+      exact this
+    | some last =>
+      apply dropWhile_all
+      intro y hy
+      simp only [decide_eq_true_eq]
+      apply Classical.byContradiction
+      intro hge
+      have hge : last.range.hi ≤ y.range.lo := by omega
+      obtain ⟨L', eL⟩ : ∃ L', L = L' ++ [last] := by
+        obtain ⟨ys, hys⟩ := List.getLast?_eq_some_iff.mp hlast
+        exact ⟨ys, hys⟩
+      obtain ⟨Ra, Rb, eR⟩ := List.append_of_mem hy
+      obtain ⟨u3, v3, s3, p3, l3⟩ := cut_at_start b (r + utf8Len w1) Ra y Rb (by rw [hR, eR])
+      obtain ⟨u4, v4, s4, p4, l4⟩ := cut_at_end (w1 ++ b) r L' last [] (by rw [hL, eL])
+      have hsp : u4 ++ v4 = (w1 ++ u3) ++ v3 := by rw [← s4, s3, List.append_assoc]
+      obtain ⟨m, hm1, hm2⟩ := split_prefix hsp (by rw [utf8Len_append]; omega)
+      have := pre_empty m v3 last.range.hi (by rw [← hm2]; exact l4)
+      have hpos : last.range.hi + utf8Len m = y.range.lo := by
+        have : utf8Len (w1 ++ u3) = utf8Len (u4 ++ m) := by rw [hm1]
+        rw [utf8Len_append, utf8Len_append] at this
+        omega
+      rw [hpos, l3] at this
+      cases this
+  · -- x is the first token of L that occurs in R
+    have hnew : newToksOf L R = L1 := h4
+    have hxR : x ∈ R := by
+      have : R.contains x = true := by simpa using hx
+      exact List.contains_iff_mem.mp this
+    obtain ⟨R1, R2, eR⟩ := List.append_of_mem hxR
+    -- the lexings continue identically from x on
+    obtain ⟨u1, v1, s1, p1, l1⟩ := cut_at_start (w1 ++ b) r L1 x L2 (by rw [hL, e])
+    obtain ⟨u2, v2, s2, p2, l2⟩ := cut_at_start b (r + utf8Len w1) R1 x R2 (by rw [hR, eR])
+    have hv : v1 = v2 := by
+      have hsp : u1 ++ v1 = (w1 ++ u2) ++ v2 := by rw [← s1, s2, List.append_assoc]
+      exact (split_unique hsp (by rw [utf8Len_append]; omega)).2
+    have hL2 : L2 = R2 := by
+      rw [hv, l2] at l1
+      simpa using l1.symm
+    suffices htail : tailOf L R = x :: L2 by rw [hnew, htail, e]
+    unfold tailOf
+    rw [hnew]
+    -- every token of R before x starts before x
+    have hR1lt : ∀ y ∈ R1, y.range.lo < x.range.lo := by
+      rw [eR, List.pairwise_append] at hRsorted
+      intro y hy
+      exact hRsorted.2.2 y hy x (by simp)
+    cases hlast : L1.getLast? with
+    | none =>
+      have : L1 = [] := List.getLast?_eq_none_iff.mp hlast
+      subst this
+      -- R must start with x
+      cases R1 with
+      | nil => simp [eR, hL2]
+      | cons y R1' =>
+        exfalso
+        have hy := hR1lt y (by simp)
+        have hylo : r + utf8Len w1 ≤ y.range.lo := lexL_lo b _ y (by rw [hR, eR]; simp)
+        have := pre_first w1 b r x L2 (by rw [hL, e]; simp) (by omega)
+        rw [hR, eR] at this
+        simp only [List.cons_append, List.cons.injEq] at this
+        rw [this.1] at hy
+        omega
+    | some last =>
+      obtain ⟨L1', eL1⟩ : ∃ L1', L1 = L1' ++ [last] := List.getLast?_eq_some_iff.mp hlast
+      have hlastx : last.range.hi ≤ x.range.lo := by
+        rw [e, eL1, List.pairwise_append] at hLsorted
+        exact hLsorted.2.2 last (by simp) x (by simp)
+      rw [eR, ← hL2]
+      apply dropWhile_append_of
+      · intro y hy
+        simp only [decide_eq_true_eq]
+        apply Classical.byContradiction
+        intro hge
+        have hge : last.range.hi ≤ y.range.lo := by omega
+        have hylt := hR1lt y hy
+        obtain ⟨Ra, Rb, eR1⟩ := List.append_of_mem hy
+        obtain ⟨u3, v3, s3, p3, l3⟩ :=
+          cut_at_start b (r + utf8Len w1) Ra y (Rb ++ x :: R2) (by rw [hR, eR, eR1]; simp)
+        obtain ⟨u4, v4, s4, p4, l4⟩ :=
+          cut_at_end (w1 ++ b) r L1' last (x :: L2) (by rw [hL, e, eL1]; simp)
+        have hsp : u4 ++ v4 = (w1 ++ u3) ++ v3 := by rw [← s4, s3, List.append_assoc]
+        obtain ⟨m, hm1, hm2⟩ := split_prefix hsp (by rw [utf8Len_append]; omega)
+        have hpos : last.range.hi + utf8Len m = y.range.lo := by
+          have : utf8Len (w1 ++ u3) = utf8Len (u4 ++ m) := by rw [hm1]
+          rw [utf8Len_append, utf8Len_append] at this
+          omega
+        have := pre_first m v3 last.range.hi x L2 (by rw [← hm2]; exact l4) (by omega)
+        rw [hpos, l3] at this
+        simp only [List.cons.injEq] at this
+        rw [this.1] at hylt
+        omega
+      · simp only [decide_eq_false_iff_not, Nat.not_lt]
+        exact hlastx
+
+/-! ### `lexer::update` -/
+
+theorem splitLast_snoc {α} : ∀ (l : List α) (x : α), splitLast (l ++ [x]) = some (l, x)
+  | [], x => rfl
+  | [a], x => rfl
+  | a :: b :: bs, x => by
+    have ih := splitLast_snoc (b :: bs) x
+    simp only [List.cons_append] at ih ⊢
+    simp only [splitLast, ih, Option.map]
+
+theorem dropBytes_append : ∀ (a b : List Char), dropBytes (utf8Len a) (a ++ b) = some b
+  | [], b => by simp [dropBytes]
+  | c :: cs, b => by
+    have hpos := utf8Size_pos c
+    obtain ⟨n, hn⟩ : ∃ n, utf8Len (c :: cs) = n + 1 := ⟨utf8Len (c :: cs) - 1, by simp only [utf8Len_cons]; omega⟩
+    rw [hn]
+    simp only [List.cons_append, dropBytes]
+    have hle : c.utf8Size ≤ n + 1 := by simp only [utf8Len_cons] at hn; omega
+    simp only [hle, if_true]
+    have : n + 1 - c.utf8Size = utf8Len cs := by simp only [utf8Len_cons] at hn; omega
+    rw [this]
+    exact dropBytes_append cs b
+
+theorem shiftToken_eof {p q : Nat} {d : Int} (h : (q : Int) = p + d) :
+    shiftToken? (eofToken p) d = some (eofToken q) := by
+  have h0 : shiftInt p d = some q := by simpa using shiftInt_ok (k := 0) h
+  simp [shiftToken?, shiftRange?, eofToken, h0, shiftErrs?]
+
+/-- **`lexer::update` equals `lexer::lex` of the new text** (given look-ahead locality):
+    for every old text `pre ++ mid ++ post`, every replacement `ins` of `mid`, updating the
+    tokens of the old text yields exactly the tokens of `pre ++ ins ++ post`. -/
+theorem lexUpdate_eq_lex (hloc : LexLocal) (pre mid ins post : List Char) :
+    ∃ ch, lexUpdate (pre ++ ins ++ post)
+        (lexL (pre ++ mid ++ post) 0 ++ [eofToken (utf8Len (pre ++ mid ++ post))])
+        (utf8Len pre) (utf8Len pre + utf8Len mid) (utf8Len ins) =
+      .ok (lexL (pre ++ ins ++ post) 0 ++ [eofToken (utf8Len (pre ++ ins ++ post))], ch) := by
+  obtain ⟨H, a1, g, ha, hO, hN, hHun, hXaff, hH0, hHlast⟩ :=
+    head_stable hloc (pre ++ (mid ++ post)) 0 pre (mid ++ post) (ins ++ post) rfl
+  simp only [Nat.zero_add] at hO hN hHun hXaff hHlast
+  generalize hX : lexL (g ++ (mid ++ post)) (utf8Len a1) = X at hO hXaff
+  generalize hL : lexL (g ++ (ins ++ post)) (utf8Len a1) = L at hN
+  -- the affected old tokens: those starting before the end of the change, then the reusable ones
+  have hXs : X.Pairwise (fun a b => a.range.lo < b.range.lo) := by rw [← hX]; exact lexL_lo_sorted _ _
+  obtain ⟨X1, X2, eX, hX1, hX2⟩ :=
+    sorted_split (fun a b : Token => a.range.lo < b.range.lo)
+      (fun t => decide (t.range.lo < utf8Len pre + utf8Len mid))
+      (by intro a b hab ha; simp only [decide_eq_false_iff_not, Nat.not_lt] at ha ⊢; omega) X hXs
+  -- the shifted reusable tokens are the lexing of a suffix of `post` at its new position
+  let d : Int := (utf8Len ins : Int) - ((utf8Len pre + utf8Len mid - utf8Len pre : Nat) : Int)
+  have hR : ∃ m' bb, post = m' ++ bb ∧
+      X2.mapM (fun t => shiftToken? t d) = some (lexL bb (utf8Len (pre ++ ins ++ m'))) := by
+    cases X2 with
+    | nil => exact ⟨post, [], by simp, by simp⟩
+    | cons x X2' =>
+      have hxlo : utf8Len pre + utf8Len mid ≤ x.range.lo := by
+        have := hX2 x (by simp)
+        simpa using this
+      obtain ⟨a, b, s1, p1, l1⟩ := cut_at_start (pre ++ (mid ++ post)) 0 (H ++ X1) x X2'
+        (by rw [hO, eX]; simp)
+      have hsp : (pre ++ mid) ++ post = a ++ b := by rw [← s1]; simp
+      obtain ⟨m', hm1, hm2⟩ := split_prefix hsp (by rw [utf8Len_append]; omega)
+      refine ⟨m', b, hm2, ?_⟩
+      rw [← l1]
+      apply lexL_shift
+      have : x.range.lo = utf8Len pre + utf8Len mid + utf8Len m' := by
+        rw [← p1, hm1, utf8Len_append, utf8Len_append]; omega
+      simp only [utf8Len_append, d]
+      omega
+  obtain ⟨m', bb, hpost, hRe⟩ := hR
+  generalize hRdef : lexL bb (utf8Len (pre ++ ins ++ m')) = R at hRe
+  -- the pieces of the algorithm
+  have e1 := splitLast_snoc (lexL (pre ++ mid ++ post) 0) (eofToken (utf8Len (pre ++ mid ++ post)))
+  have e3 : shiftToken? (eofToken (utf8Len (pre ++ mid ++ post))) d =
+      some (eofToken (utf8Len (pre ++ ins ++ post))) := by
+    apply shiftToken_eof
+    simp only [utf8Len_append, d]
+    omega
+  have hOO : lexL (pre ++ mid ++ post) 0 = H ++ X := by rw [List.append_assoc]; exact hO
+  have e4 : (lexL (pre ++ mid ++ post) 0).filter (fun t => !t.isAffectedBy (utf8Len pre)) = H := by
+    rw [hOO]
+    exact filter_append_of _ H X (fun y hy => by simp [hHun y hy]) (fun y hy => by simp [hXaff y hy])
+  have e5 : (lexL (pre ++ mid ++ post) 0).filter (fun t => t.isAffectedBy (utf8Len pre)) = X := by
+    rw [hOO]
+    exact filter_append_of' _ H X (fun y hy => hHun y hy) (fun y hy => hXaff y hy)
+  have e6 : X.filter (fun t => !decide (t.range.lo < utf8Len pre + utf8Len mid)) = X2 := by
+    rw [eX]
+    exact filter_append_of' _ X1 X2 (fun y hy => by simp [hX1 y hy]) (fun y hy => by simp [hX2 y hy])
+  have e9 : dropBytes (utf8Len a1) (pre ++ ins ++ post) = some (g ++ (ins ++ post)) := by
+    have : pre ++ ins ++ post = a1 ++ (g ++ (ins ++ post)) := by rw [ha]; simp
+    rw [this]; exact dropBytes_append _ _
+  have e10 : lexGo (g ++ (ins ++ post)) (utf8Len a1) 0 = some L := by rw [lexGo_eq_lexL, hL]
+  -- stitching
+  have hst : newToksOf L R ++ tailOf L R = L := by
+    have hw : g ++ (ins ++ post) = (g ++ ins ++ m') ++ bb := by rw [hpost]; simp
+    have hq : utf8Len (pre ++ ins ++ m') = utf8Len a1 + utf8Len (g ++ ins ++ m') := by
+      rw [ha]; simp only [utf8Len_append]; omega
+    have := stitch (g ++ ins ++ m') bb (utf8Len a1)
+    rw [← hw, hL, ← hq, hRdef] at this
+    exact this
+  have hNN : lexL (pre ++ ins ++ post) 0 = H ++ L := by rw [List.append_assoc]; exact hN
+  refine ⟨⟨H.length, (lexL (pre ++ mid ++ post) 0).length - (tailOf L R).length, (newToksOf L R).length⟩, ?_⟩
+  unfold lexUpdate
+  simp only [e1]
+  have e2 : ((eofToken (utf8Len (pre ++ mid ++ post))).ty != TokenType.Eof) = false := by
+    simp [eofToken]
+  simp only [e2, Bool.false_eq_true, if_false]
+  show (match shiftToken? (eofToken (utf8Len (pre ++ mid ++ post))) d with
+    | none => _
+    | some eof' => _) = _
+  rw [e3]
+  simp only [e4, e5, e6]
+  show (match X2.mapM (fun t => shiftToken? t d) with
+    | none => _
+    | some reusable => _) = _
+  rw [hRe]
+  have fin : ∀ rs, rs = utf8Len a1 →
+      (match dropBytes rs (pre ++ ins ++ post) with
+        | none => (Except.error { site := "slice" } : Except Panic (List Token × TokenChange))
+        | some suffix =>
+          match lexGo suffix rs 0 with
+          | none => Except.error { site := "expect:Lexing must not fail" }
+          | some lexed =>
+            Except.ok
+              ((H ++ List.takeWhile (fun t : Token => !R.contains t) lexed ++
+                    match (List.takeWhile (fun t : Token => !R.contains t) lexed).getLast? with
+                    | some l => List.dropWhile (fun t : Token => decide (t.range.lo < l.range.hi)) R
+                    | none => R) ++
+                  [eofToken (utf8Len (pre ++ ins ++ post))],
+                { delLo := H.length,
+                  delHi :=
+                    (lexL (pre ++ mid ++ post) 0).length -
+                      (match (List.takeWhile (fun t : Token => !R.contains t) lexed).getLast? with
+                        | some l => List.dropWhile (fun t : Token => decide (t.range.lo < l.range.hi)) R
+                        | none => R).length,
+                  insLen := (List.takeWhile (fun t : Token => !R.contains t) lexed).length })) =
+      Except.ok
+        (H ++ L ++ [eofToken (utf8Len (pre ++ ins ++ post))],
+          { delLo := H.length, delHi := (lexL (pre ++ mid ++ post) 0).length - (tailOf L R).length,
+            insLen := (newToksOf L R).length }) := by
+    intro rs hrs
+    subst hrs
+    simp only [e9, e10]
+    show Except.ok (H ++ newToksOf L R ++ tailOf L R ++ [eofToken (utf8Len (pre ++ ins ++ post))], _) = _
+    rw [List.append_assoc H, hst]
+    rfl
+  rw [hNN]
+  cases hl : H.getLast? with
+  | none =>
+    have : H = [] := List.getLast?_eq_none_iff.mp hl
+    exact fin 0 (by rw [hH0 this]; rfl)
+  | some t => exact fin t.range.hi (hHlast t hl)
+
 end Spl
